@@ -44,13 +44,16 @@ type facts struct {
 	verifierMutates  []string          // os.* mutating calls reachable in verifier files
 	aliasPairs       map[string]bool   // deprecated alias body identical to replacement
 	entryConfig      map[string]string // exported entry point -> the config constructor(s) it calls
+	pipeEmbeds       map[string][]string // pipeline stage struct -> the struct types it embeds
+	pipeMethods      map[string][]string // pipeline stage struct -> the methods it declares itself
+	workerCalls      map[string][]string // pipeline stage struct -> methods its worker calls on the receiver
 }
 
 func main() {
 	repo := flag.String("repo", "/repo", "repository root")
 	out := flag.String("out", "", "output Lean file")
 	flag.Parse()
-	f := &facts{consts: map[string]string{}, errChanCap: map[string]int{}, pkgVarWrites: map[string][]string{}, tagged: map[string]string{}, exitCodes: map[string]int{}, aliasPairs: map[string]bool{}, entryConfig: map[string]string{}}
+	f := &facts{consts: map[string]string{}, errChanCap: map[string]int{}, pkgVarWrites: map[string][]string{}, tagged: map[string]string{}, exitCodes: map[string]int{}, aliasPairs: map[string]bool{}, entryConfig: map[string]string{}, pipeEmbeds: map[string][]string{}, pipeMethods: map[string][]string{}, workerCalls: map[string][]string{}}
 	fset := token.NewFileSet()
 	for _, dir := range []string{*repo, filepath.Join(*repo, "markdown"), filepath.Join(*repo, "cmd", "gtree")} {
 		ents, err := os.ReadDir(dir)
@@ -151,6 +154,13 @@ func (f *facts) scanFile(fset *token.FileSet, rel string, file *ast.File) {
 						continue
 					}
 					st, ok := ts.Type.(*ast.StructType)
+					if ok && strings.HasPrefix(ts.Name.Name, "default") && strings.HasSuffix(ts.Name.Name, "Pipeline") {
+						for _, fl := range st.Fields.List {
+							if len(fl.Names) == 0 {
+								f.pipeEmbeds[ts.Name.Name] = append(f.pipeEmbeds[ts.Name.Name], strings.TrimPrefix(exprStr(fl.Type), "*"))
+							}
+						}
+					}
 					if !ok || !strings.HasSuffix(ts.Name.Name, "Node") || ts.Name.Name == "Node" {
 						continue
 					}
@@ -309,6 +319,25 @@ func guardedSelects(body *ast.BlockStmt) map[ast.Stmt]bool {
 func (f *facts) scanFunc(fset *token.FileSet, rel string, fd *ast.FuncDecl) {
 	name := recvName(fd)
 	where := rel + ":" + name
+	if fd.Recv != nil && len(fd.Recv.List) == 1 {
+		rt := strings.TrimPrefix(exprStr(fd.Recv.List[0].Type), "*")
+		if strings.HasPrefix(rt, "default") && strings.HasSuffix(rt, "Pipeline") {
+			f.pipeMethods[rt] = append(f.pipeMethods[rt], fd.Name.Name)
+			if fd.Name.Name == "worker" && len(fd.Recv.List[0].Names) == 1 {
+				rv := fd.Recv.List[0].Names[0].Name
+				ast.Inspect(fd.Body, func(n ast.Node) bool {
+					if ce, ok := n.(*ast.CallExpr); ok {
+						if se, ok := ce.Fun.(*ast.SelectorExpr); ok {
+							if idt, ok := se.X.(*ast.Ident); ok && idt.Name == rv {
+								f.workerCalls[rt] = append(f.workerCalls[rt], se.Sel.Name)
+							}
+						}
+					}
+					return true
+				})
+			}
+		}
+	}
 	guarded := guardedSelects(fd.Body)
 	var order []string // linearised interesting events for lock analysis
 	ast.Inspect(fd.Body, func(n ast.Node) bool {
@@ -551,6 +580,19 @@ func (f *facts) render() string {
 	}
 	sort.Strings(ecf)
 	w("\n/-- exported entry point ↦ the configuration constructor it calls (Output keeps the encoding option; Mkdir, Verify and Walk must not) -/\ndef entryConfig : List (String × String) := [%s]\n", strings.Join(ecf, ", "))
+	strMap := func(m map[string][]string) string {
+		var l []string
+		for k, v := range m {
+			vv := uniq(v)
+			sort.Strings(vv)
+			l = append(l, fmt.Sprintf("(%s, %s)", strconv.Quote(k), leanStrList(vv)))
+		}
+		sort.Strings(l)
+		return "[" + strings.Join(l, ", ") + "]"
+	}
+	w("\n/-- pipeline stage type ↦ the struct types it embeds (whose methods are promoted) -/\ndef pipeEmbeds : List (String × List String) := %s\n", strMap(f.pipeEmbeds))
+	w("/-- pipeline stage type ↦ the methods it declares itself (a promoted method of the same name would be shadowed) -/\ndef pipeMethods : List (String × List String) := %s\n", strMap(f.pipeMethods))
+	w("/-- pipeline stage type ↦ the methods its worker calls on its receiver -/\ndef workerCalls : List (String × List String) := %s\n", strMap(f.workerCalls))
 	var tg []string
 	for k, v := range f.tagged {
 		if strings.HasPrefix(k, "cmd") || strings.HasPrefix(k, "markdown") {
